@@ -38,7 +38,7 @@ func runC07(p *Prog, r *Report) {
 	r.Min("C07.R6", 1)
 	// (a) packet builder: goroutine with a loop calling PacketFiller.Fill
 	var builders []*ssa.Function
-	for _, fn := range p.FuncsCalling(func(c *ssa.CallCommon) bool { return IsCallTo(c, fnFill) }) {
+	for _, fn := range p.LoopFuncsCalling(func(c *ssa.CallCommon) bool { return IsCallTo(c, fnFill) }) {
 		if len(LoopHeaders(fn)) == 1 {
 			builders = append(builders, fn)
 		}
@@ -62,7 +62,7 @@ func runC07(p *Prog, r *Report) {
 func checkBuilder(p *Prog, r *Report, fn *ssa.Function) {
 	L := loopHeadersSorted(fn)[0]
 	pos := p.Pos(fn.Pos())
-	fp := Paths(fn)
+	fp := PathsInl(fn)
 	i := 0
 	for _, s := range fp.From(L) {
 		if s.IsSelectPanicTail() {
@@ -198,7 +198,7 @@ func checkMerger(p *Prog, r *Report, fn *ssa.Function, rule, ruleWiring string) 
 		r.Undecided(rule, FuncName(mux), pos, "multiplexer is one loop", fmt.Sprint(len(heads)))
 		return
 	}
-	fp := Paths(mux)
+	fp := PathsInl(mux)
 	i := 0
 	for _, s := range fp.From(heads[0]) {
 		if s.IsSelectPanicTail() {
@@ -255,7 +255,7 @@ func checkMerger(p *Prog, r *Report, fn *ssa.Function, rule, ruleWiring string) 
 	}
 	r.Check(okDone, ruleWiring, FuncName(mux)+"/done-deferred", p.Pos(mux.Pos()), "each multiplexer defers wg.Done()", "no deferred WaitGroup.Done")
 	// wiring in the parent: Add(len(channels)) before any go; one go per element of channels; closer waits then closes out
-	pp := Paths(fn)
+	pp := PathsInl(fn)
 	addOK := false
 	for _, s := range pp.From(fn.Blocks[0]) {
 		for _, e := range s.Events {
@@ -293,7 +293,7 @@ func checkMerger(p *Prog, r *Report, fn *ssa.Function, rule, ruleWiring string) 
 		}
 	}
 	r.Check(spawnOK, ruleWiring, name+"/spawn-each", pos, "one multiplexer is spawned for every input channel (range over the whole slice)", "spawn loop does not cover channels[0..len)")
-	cp := Paths(closer)
+	cp := PathsInl(closer)
 	closeOK := len(cp.Headers) == 0
 	for _, s := range cp.Segs {
 		if !s.Returns() {
@@ -372,7 +372,7 @@ func checkSender(p *Prog, r *Report, fn *ssa.Function) {
 		return
 	}
 	L := loopHeadersSorted(loopFn)[0]
-	fp := Paths(loopFn)
+	fp := PathsInl(loopFn)
 	// channels returned: done (chan interface{}), errc (chan error)
 	var doneV, errV ssa.Value
 	for _, b := range fn.Blocks {
@@ -669,7 +669,7 @@ func checkGeneratorFailure(p *Prog, r *Report) {
 		if fn.Pkg != p.SPkg("pkg/scan") {
 			continue
 		}
-		fp := Paths(fn)
+		fp := PathsInl(fn)
 		for i, s := range fp.Segs {
 			gens := s.CallsWhere(func(c *ssa.CallCommon) bool {
 				return IsCallTo(c, modPath+"/pkg/scan.RequestGenerator.GenerateRequests")
